@@ -46,7 +46,7 @@ def main():
         else:
             for pr in [prop] + [p for p in also if p != prop]:
                 t0 = time.time()
-                r = sh('cd %s && ALGOPY_REPO=%s VERIF_NO_CONFIRM=1 ./check %s --tier %s' % (VERIF, wt, pr, tier))
+                r = sh('cd %s && ALGOPY_REPO=%s VERIF_EVIDENCE_DIR=/tmp/wt/evidence_mutants VERIF_NO_CONFIRM=1 ./check %s --tier %s' % (VERIF, wt, pr, tier))
                 viol = [l for l in r.stdout.splitlines() if l.startswith('VIOLATION')]
                 sigs = [re.search(r'sig=(.*?) cases=', l).group(1) for l in viol if re.search(r'sig=(.*?) cases=', l)]
                 res[pr] = {'status': 'DETECTED' if (r.returncode == 1 and viol) else ('harness error' if r.returncode == 2 else 'not detected'),
